@@ -75,6 +75,29 @@ def run(ctx):
             return "a searcher lists a keyword twice"
         return None
     ctx.compare("get_keywords", trees, impl_get_keywords, nontrivial=lambda a, o: len(o) >= 2, oracle=kw_oracle)
+    # ... and the searchers that were built must SEARCH FOR the words of their own file (same-named files in different sub-directories, equal word counts included)
+    import tempfile as _tf, shutil as _sh
+    from registry_common import materialise
+    import multidecoder.registry as _reg
+    same = [[["tool.name", b"alphatool\n"]], [["win_d", [[["tool.name", b"bravotool\n"]], []]], ["lin_d", [[["tool.name", b"charlietool\n"], ["misc", b"delta\necho1\n"]], []]]]]
+    same2 = [[["misc", b"foxtrot\ngolf\n"], ["tool.name", b"hoteltool\n"]], []]
+    for t in [same, same2, same] + trees[: ctx.budget(40, 400)]:
+        tmp = _tf.mkdtemp(prefix="verif_c18_")
+        try:
+            materialise(t, tmp)
+            searchers = _reg.get_keywords(tmp)
+            ctx.evals += 1
+            for f in searchers:
+                label, words = f.args[0], [w for w in f.args[1]]
+                text = b" ; ".join(words) + b" ; zz"
+                got = sorted((bytes(h.value), h.type) for h in f(text))
+                # every listed word occurs delimited in the text, so each must be reported (at least once) with the file's name as type, and nothing else may be
+                want = sorted({(w, label) for w in words})
+                if sorted(set(got)) != want:
+                    ctx.violation("get_keywords", [t], f"searcher built for keyword file {label!r} with words {words[:4]} reports {sorted(set(got))[:6]} on a text listing exactly its words")
+                    break
+        finally:
+            _sh.rmtree(tmp, ignore_errors=True)
     lines = [bytes(ctx.rng.choice(b"ab\r\n\n \r") for _ in range(ctx.rng.randint(0, 12))) for _ in range(ctx.budget(500, 5000))]
     ctx.compare("splitlines", lines, lambda b: b.splitlines())
     # a custom keyword directory replaces the shipped keywords and nothing else
